@@ -78,6 +78,11 @@ inductive Val where
 
 abbrev Member := String × Bool × Ty
 
+/-- `t == anyTypeDefault` -/
+def Ty.isAny : Ty → Bool
+  | .any => true
+  | _ => false
+
 /-! ### termination weights (DESIGN Appendix B): every constructor / cons contributes ≥ 2 -/
 mutual
 def Ty.w : Ty → Nat
